@@ -92,6 +92,9 @@ type FnV struct {
 	retCount int
 	labels   map[ast.Stmt]string
 	shared   map[types.Object]bool
+	loopHid  types.Object
+	loopBind func(*State)
+	applyHook func(*State)
 	curPos   token.Pos
 	decl     *ast.FuncDecl
 	fnobj    *types.Func
@@ -466,6 +469,7 @@ func (e *Engine) verifyFunc(fc *FuncContract) []*Oblig {
 		}
 		st.assume(val.S)
 	}
+	v.applyAt(st, 0, sc)
 	v.entry = st.fork()
 
 	fl := v.block(st, decl.Body.List)
@@ -1510,8 +1514,13 @@ func (v *FnV) loopCore(st *State, node ast.Stmt, label string, modified []ast.No
 	var out Flow
 	ord := v.fr().ord[node]
 	ls := v.loopClauses(ord)
+	hid, bind := v.loopHid, v.loopBind
+	v.loopHid, v.loopBind = nil, nil
 	sc := &Scope{v: v, vars: map[string]Value{}, pkg: v.fr().pkg, pos: v.loopScopePos(node), old: v.entry, oldVars: v.entryVars()}
 	checkInvs := func(s *State, phase string) {
+		if hid != nil {
+			sc.vars["range_pos"] = s.env[hid]
+		}
 		for k, cl := range ls.invs {
 			s2 := s.fork()
 			val, err := v.spec(s2, cl.Expr, sc)
@@ -1529,17 +1538,20 @@ func (v *FnV) loopCore(st *State, node ast.Stmt, label string, modified []ast.No
 		}
 	}
 	assumeInvs := func(s *State) {
+		if extraInv != nil {
+			for _, a := range extraInv(s) {
+				s.assume(a)
+			}
+		}
+		if hid != nil {
+			sc.vars["range_pos"] = s.env[hid]
+		}
 		for _, cl := range ls.invs {
 			val, err := v.spec(s, cl.Expr, sc)
 			if err != nil {
 				continue
 			}
 			s.assume(val.S)
-		}
-		if extraInv != nil {
-			for _, a := range extraInv(s) {
-				s.assume(a)
-			}
 		}
 	}
 	// 1. establishment
@@ -1576,6 +1588,13 @@ func (v *FnV) loopCore(st *State, node ast.Stmt, label string, modified []ast.No
 	}
 	gn := sB.define("g", "Bool", g)
 	sB.assume(gn)
+	_ = bind
+	if hid != nil {
+		sc.vars["range_pos"] = sB.env[hid]
+		v.applyHook = func(s *State) { v.applyAt(s, ord, sc) }
+	} else {
+		v.applyAt(sB, ord, sc)
+	}
 	var decrBefore []string
 	for _, cl := range ls.decr {
 		val, err := v.spec(sB, cl.Expr, sc)
@@ -1830,6 +1849,7 @@ func (v *FnV) rangeStmt(st *State, x *ast.RangeStmt, label string) Flow {
 					val = &Value{T: elem, S: get(s, i.S)}
 				}
 				bindKV(s, &i, val)
+				v.runApplyHook(s)
 				return v.block(s, x.Body.List)
 			},
 			func(s *State) *State {
@@ -1851,6 +1871,7 @@ func (v *FnV) rangeStmt(st *State, x *ast.RangeStmt, label string) Flow {
 					r := Value{T: tRune, S: sx("dr", subj.S, i.S)}
 					s.assume(v.c.utf8Facts(subj.S, i.S))
 					bindKV(s, &i, &r)
+				v.runApplyHook(s)
 					return v.block(s, x.Body.List)
 				},
 				func(s *State) *State {
@@ -1869,6 +1890,7 @@ func (v *FnV) rangeStmt(st *State, x *ast.RangeStmt, label string) Flow {
 				func(s *State) Flow {
 					i := Value{T: xt, S: s.env[hid].S}
 					bindKV(s, &i, nil)
+				v.runApplyHook(s)
 					return v.block(s, x.Body.List)
 				},
 				func(s *State) *State {
@@ -1885,6 +1907,7 @@ func (v *FnV) rangeStmt(st *State, x *ast.RangeStmt, label string) Flow {
 				val, present := v.mapLookup(s, u, subj, k)
 				s.assume(present)
 				bindKV(s, &k, &val)
+				v.runApplyHook(s)
 				return v.block(s, x.Body.List)
 			}, nil)
 	case *types.Chan:
@@ -1894,6 +1917,7 @@ func (v *FnV) rangeStmt(st *State, x *ast.RangeStmt, label string) Flow {
 			func(s *State) Flow {
 				k := s.freshVal("recv", u.Elem())
 				bindKV(s, &k, nil)
+				v.runApplyHook(s)
 				return v.block(s, x.Body.List)
 			}, nil)
 	case *types.Signature:
@@ -1940,5 +1964,13 @@ func (v *FnV) loopCoreHidden(st *State, x *ast.RangeStmt, label string, hid type
 			mods = append(mods, &ast.AssignStmt{Lhs: []ast.Expr{x.Value}, Tok: token.ASSIGN, Rhs: []ast.Expr{x.Value}})
 		}
 	}
+	v.loopHid = hid
 	return v.loopCore(st, x, label, mods, extra, guard, body, post)
+}
+
+func (v *FnV) runApplyHook(s *State) {
+	if h := v.applyHook; h != nil {
+		v.applyHook = nil
+		h(s)
+	}
 }
